@@ -156,7 +156,11 @@ def o_api_invalid(rng, n=4):
             specs = [list(x) for x in ORDER_SPECS] + [[None, [rng.choice([2, 3, 4])] * rng.randint(2, 3)],
                                                       [None, [2, 3, 3]], [None, [3, 2, 3, 2]], [None, [4, 4]]]
             yield {"crystal": cr, "n_snap": 40, "data_seed": rng.randrange(10 ** 6), "specs": specs,
-                   "bad_shapes": [[40, N + 1, 3], [39, N, 3], [40, N, 2], [40, N * 3]]}
+                   # trailing-shape mismatches, snapshot-count mismatches (one off; half; double; 3/4 and 4/3, the
+                   # ratios for which a flattened reshape of one array by the other's snapshot count still "fits"),
+                   # transposed axes, a 2-D array
+                   "bad_shapes": [[40, N + 1, 3], [39, N, 3], [40, N, 2], [40, N * 3], [80, N, 3], [20, N, 3],
+                                  [30, N, 3], [120, N, 3], [10, N, 3], [40, 3, N], [40, 1, 3 * N]]}
     return O.run_oracle("api_invalid", gen())
 
 
